@@ -45,6 +45,16 @@ func NewUtxoCache(limit int) *UtxoCache {
 	}
 }
 
+// Reset 原地清空cache. 不能用新对象替换: 其他goroutine(SelectUtxos等)可能正持有旧对象的锁,
+// 替换后它们解锁的是新对象的锁, 会触发"unlock of unlocked mutex"致命错误
+func (uv *UtxoCache) Reset() {
+	uv.mutex.Lock()
+	defer uv.mutex.Unlock()
+	uv.Available = map[string]map[string]*CacheItem{}
+	uv.All = map[string]map[string]*CacheItem{}
+	uv.List = list.New()
+}
+
 // Insert insert/update utxo cache
 func (uv *UtxoCache) Insert(addr string, utxoKey string, item *UtxoItem) {
 	uv.mutex.Lock()
